@@ -172,6 +172,54 @@ def fanout(func: Callable[[Any], Stats], units: Iterable[Any], procs: int | None
     return total
 
 
+def fresh_forks(func: Callable[[Any], Stats], units: Iterable[Any], procs: int = 12) -> Stats:
+    """Run every unit in its OWN process forked directly from this (pristine) process, so that module-level state of the
+    code under test left behind by one unit can never reach another (the ordinary fan-out reuses worker processes)."""
+    import pickle
+    units = list(units)
+    total = Stats()
+    running: dict[int, tuple] = {}
+    it = iter(units)
+
+    def reap(block: bool) -> None:
+        for pid in list(running):
+            r, unit = running[pid]
+            done = os.waitpid(pid, 0 if block else os.WNOHANG)
+            if done[0] == 0:
+                continue
+            with os.fdopen(r, "rb") as f:
+                data = f.read()
+            del running[pid]
+            if not data:
+                raise HarnessError(f"forked unit {str(unit)[:120]} died without a result (exit status {done[1]})")
+            kind, payload = pickle.loads(data)
+            if kind == "err":
+                raise HarnessError(f"forked unit {str(unit)[:120]} failed: {payload}")
+            total.merge(payload)
+            if block:
+                return
+
+    for unit in it:
+        while len(running) >= procs:
+            reap(True)
+        r, w = os.pipe()
+        pid = os.fork()
+        if pid == 0:
+            os.close(r)
+            try:
+                out = ("ok", func(unit))
+            except BaseException:  # noqa: BLE001
+                out = ("err", traceback.format_exc())
+            with os.fdopen(w, "wb") as f:
+                f.write(pickle.dumps(out))
+            os._exit(0)
+        os.close(w)
+        running[pid] = (r, unit)
+    while running:
+        reap(True)
+    return total
+
+
 # ----------------------------------------------------------------------------- findings
 
 def load_findings(pid: str) -> tuple[list[dict], list[str]]:
